@@ -108,12 +108,10 @@ DoSearch(e) ==
                   ELSE IF ~SearchClientOk(e) THEN "ClientMismatch"
                   ELSE IF e.got = e.s THEN "ok"
                   ELSE IF e.got = Reaches(e) /\ PlusFlagAmbiguity(e.p, e.s) THEN "SameSearch_PlusFlagAmbiguity"
-                  ELSE IF GeminiRedirectCut(e.p, e.t, e.base, e.s) THEN "SameSearch_GeminiRedirectCut"
                   ELSE IF e.got = Reaches(e) /\ SearchCapturedBy(e.p, e.t, e.base, e.s) # "none"
                        THEN "SameSearch_CapturedBy_" \o SearchCapturedBy(e.p, e.t, e.base, e.s)
                   ELSE "SameSearch"
-    /\ (IF GeminiRedirectCut(e.p, e.t, e.base, e.s)
-           \/ (e.got = Reaches(e) /\ (Len(e.chain) >= 1 => e.chain[1].loc = Parse(Rq(e.chain[1].line, "", TRUE)).redirect))
+    /\ (IF e.got = Reaches(e) /\ (Len(e.chain) >= 1 => e.chain[1].loc = Parse(Rq(e.chain[1].line, "", TRUE)).redirect)
         THEN TRUE ELSE RecordDrift(tid, l, "search string or redirect differs from the model (SearchReaches, Parse)"))
 
 Consume ==
